@@ -81,8 +81,8 @@ def candidates(j, baseline):
         if gone_sigs.get(key):
             gone_sigs[key].pop()
             continue
-        if f.get('vis') == 'Public' and not f.get('impl_self'):
-            # a new public free function is API, not a helper
+        if f.get('vis') == 'Public' and not f.get('impl_self') and f.get('exported', True):
+            # a new public free function is API, not a helper (`pub fn` in a module nothing exports is a helper)
             continue
         out.add(f['path'])
     return out
